@@ -25,6 +25,9 @@ ASSUMPTIONS = [
     "distinct row missing from an untruncated result; Q3 result cardinality != min(n, d); Q4 two returned rows equal on all five columns; Q5 "
     "list_modules != the set of modules having rows (module names assumed non-empty)",
     "every sat model is replayed on a real SQLiteStore (in-memory SQLite) before it is believed; unknown => exit 2",
+    "the statements the real store executes at creation (make_store on a recording connection) and in add() must be exactly CREATE TABLE IF NOT EXISTS "
+    "with the six columns, CREATE INDEX IF NOT EXISTS and one INSERT ... VALUES (?,?,?,?,?,?) by executemany: re-opening a database then cannot "
+    "drop or alter rows at the SQL level; any other statement (a PRAGMA changing the journal mode, DROP, DELETE ...) => exit 2 (not modelled)",
     "E1: batch atomicity at the Python level against a ModelConnection implementing the documented sqlite3 context-manager contract (commit on clean "
     "exit, rollback on exception) whose executemany raises after j rows; batches of 1..4 traces with every subset unserialisable",
     "NOT claimed (outside this technique): interleavings of 2..16 OS processes on one database file, SIGKILL / progress-handler aborts inside SQLite's "
@@ -53,6 +56,16 @@ def e2(tier):
         info["inconclusive"] = f"cannot obtain the SQL from the real code: {e!r}"
         return info
     info["sql"] = {k: " ".join(sql.split()) for k, (sql, _b) in sqls.items()}
+    try:
+        stmts, _rc = H.setup_and_write_sql()
+        info["sql"]["setup_and_add"] = [f"{ph}: " + " ".join(sql.split()) for ph, sql in stmts]
+        bad = H.audit_statements(stmts)
+        if bad:
+            info["inconclusive"] = "store set-up / write path outside the modelled SQL subset (atomicity, durability or re-opening no longer covered): " + "; ".join(bad)
+            return info
+    except Exception as e:  # noqa: BLE001
+        info["inconclusive"] = f"cannot record the store's set-up and write statements: {e!r}"
+        return info
     discharged = 0
 
     def report(name, enc, model, with_prefix):
